@@ -225,6 +225,7 @@ func mergeStats(a *interp.Stats, b interp.Stats) {
 	a.T2Time += b.T2Time
 	a.T2Queries += b.T2Queries
 	a.Steps += b.Steps
+	a.Merged += b.Merged
 }
 
 func candKey(c interp.Candidate) string {
